@@ -35,11 +35,20 @@ let alg_of i = match Model.get_hasher (n_of_int i) with Some a -> a | None -> fa
 
 let handle (w : string list) : string =
   match w with
+  | ["aesprobe"; k; target; r] ->
+      (* plaintext whose state entering MixColumns in round r (1..9) is `target` (FIPS-197 layout), by running the spec backwards *)
+      let k = unhex k and t = unhex target and r = int_of_string r in
+      let ks = Model.keyExpansion k in
+      let s = ref (Model.invSubBytes (Model.invShiftRows t)) in
+      for i = r - 1 downto 1 do
+        s := Model.invSubBytes (Model.invShiftRows (Model.invMixColumns (Model.addRoundKey !s (Model.rk ks (nat_of_int i)))))
+      done;
+      hex (Model.addRoundKey !s (Model.rk ks (nat_of_int 0)))
   | ["aes"; d; k; b] ->
       let k = unhex k and b = unhex b in
       hex (if !spec then (if d = "e" then Model.cipher k b else Model.invCipher k b)
            else (if d = "e" then Model.aes_enc k b else Model.aes_dec k b))
-  | ["mode"; d; t; k; iv; data] ->
+  | [("mode" | "modes"); d; t; k; iv; data] ->
       let k = unhex k and iv = unhex iv and bs = blocks (unhex data) in
       let t = n_of_int (int_of_string t) in
       let iv16 = Model.firstn (nat_of_int 16) iv in
